@@ -73,14 +73,20 @@ Section Eject.
   | PostErrKicks                (* "Natal kicks already removed ..." *)
   | PostErrEject.               (* ValueError from _dyn_eject_BH *)
 
-  Definition bh_post (formed : bool) (MN : list (T * T)) (Msum ret_dyn Nmin : T)
-      (kicked : option (list (T * T) * T)) : bh_post_out :=
-    if negb formed then PostOk MN else
+  (* "If kicking basically all, skip ahead":
+       0. <= M_ret / (Mr.BH[0] / Nr.BH[0]) < Nmin *)
+  Definition shortcut (MN : list (T * T)) (Msum ret_dyn Nmin : T) : bool :=
     let M_eject := Msum * (none - ret_dyn) in
     let M_ret := Msum - M_eject in
     let '(m0, n0) := match MN with p :: _ => p | [] => (nzero, nzero) end in
     let q := M_ret / (m0 / n0) in
-    if (nzero <=? q) && (q <? Nmin) then
+    (nzero <=? q) && (q <? Nmin).
+
+  Definition bh_post (formed : bool) (MN : list (T * T)) (Msum ret_dyn Nmin : T)
+      (kicked : option (list (T * T) * T)) : bh_post_out :=
+    if negb formed then PostOk MN else
+    let M_eject := Msum * (none - ret_dyn) in
+    if shortcut MN Msum ret_dyn Nmin then
       PostOk (map (fun _ => (nzero, nzero)) MN)
     else
       let '(MN', M_eject') := match kicked with
